@@ -5,7 +5,10 @@ Tie to /repo (correspondence, no translator):
   `Resampling` and `linear_deform` are run on generated grids / values / points in every
   calling convention and compared EXACTLY (dyadic inputs) or within the tolerance of
   DESIGN section 4 (decimal grids) with the Lean execution of `Model/Interp.lean`
-  (`Drivers/C15.lean`).  The sampling wrapper is compared with the dispatch model.
+  (`Drivers/C15.lean`).  The dispatch table of the sampling wrapper (signature class -> which
+  variant of the user's callable is invoked, with or without `out`) is compared with the
+  model through instrumented callables; the table of value-dtype classes with np.can_cast and
+  the real outcome of nearest_interpolator.
 Oracle (independent of the model, on the real code):
   * textbook reference with exact Fractions: nearest = closest node, right one on ties,
     clamped outside; linear = multilinear blend of the surrounding nodes, with one ghost
@@ -35,17 +38,23 @@ RULE = ('interpolation: api(nearest/linear/per-axis) x dimension 1-3 x per-axis 
         'distinct such signatures together with the set of point categories hit.')
 TRUSTED = ['np.searchsorted(side=left) on an ascending vector = number of nodes < p; NumPy '
            'advanced indexing/broadcasting of the per-axis index arrays (modelled as position-wise '
-           'resp. cartesian combination); np.vectorize, np.broadcast_to',
+           'resp. cartesian combination); Python index -1 = last node',
+           'sampling: NumPy assignment/broadcast_to/equal-size reshape (the parameter `fit` of the '
+           'dispatch model), np.vectorize; the values produced by sampling are NOT modelled but '
+           'compared on the real code with the exact polynomial at every grid point',
            'python reference oracle in tools/harness/c15.py (exact Fractions)']
 ASSUMPTIONS = ['floating-point rounding is outside the model: on the exact stream all inputs are '
                'few-bit dyadic rationals with points placed at dyadic fractions of a cell, so every '
-               'operation on the path is exact and outputs are compared exactly; on the decimal '
-               'stream outputs agree within 1e-9*scale+1e-12 (float64) / 1e-4 relative (float32) '
-               'and no point is placed near a branch point except exactly on it',
+               'operation on the path is exact and outputs are compared exactly; on the decimal / '
+               'non-power-of-two streams outputs agree within 1e-9*scale+1e-12 (float64) / 1e-4 '
+               'relative (float32) and no point is placed near a branch point except exactly on it',
                'coordinate vectors strictly increasing with at least two nodes per axis (a '
                'single-node axis divides by zero in _find_indices: outside the property)',
                'the cast of the evaluation points to the value dtype in _find_indices is the '
-               'identity on real points for float/complex/int/narrow-string values',
+               'identity on real points for float/complex/object values and is not performed for '
+               'float32/complex64/int/narrow-string values (table castSafe, tied to np.can_cast)',
+               'linear / per-axis interpolation of integer or string values is outside the property '
+               '(the code raises UFuncTypeError: it accumulates weighted sums in the value dtype)',
                'NaN/inf values and points are outside the model']
 
 SCH_NAME = {'n': 'nearest', 'l': 'linear'}
@@ -1315,6 +1324,99 @@ def run_vector_valued(ctx):
                 ctx.violation(key + ' raised', '{}: {}'.format(type(e).__name__, str(e)[:200]), rc)
 
 
+def run_dispatch(ctx, with_model=True):
+    """Tie of the dispatch table: instrumented callables of every signature kind record
+    whether the wrapper handed them an `out`; `_func_out_type` gives (has_out, out_optional).
+    ORACLE: the sampled values are right on every path."""
+    from odl.discr import discr_utils as du
+    import odl
+    space = odl.uniform_discr([0, 0], [2, 1], (4, 2))
+    mesh = space.meshgrid
+    pts = list(itertools.product(*[[Fr(float(t)) for t in c] for c in space.grid.coord_vectors]))
+    exp = [ctok((2 * x - 3 * y + Fr(1, 2), Fr(0))) for x, y in pts]
+
+    def expr(x):
+        return 2 * x[0] - 3 * x[1] + 0.5
+
+    def mk(kind, log):
+        if kind == 'plain':
+            def f(x):
+                log.append(False)
+                return expr(x)
+        elif kind == 'optional':
+            def f(x, out=None):
+                log.append(out is not None)
+                if out is None:
+                    return expr(x)
+                out[:] = expr(x)
+        elif kind == 'kwonly':
+            def f(x, *, out=None):
+                log.append(out is not None)
+                if out is None:
+                    return expr(x)
+                out[:] = expr(x)
+        elif kind == 'required':
+            def f(x, out):
+                log.append(out is not None)
+                out[:] = expr(x)
+        elif kind == 'object_required':
+            class F(object):
+                def __call__(self, x, out):
+                    log.append(out is not None)
+                    out[:] = expr(x)
+            f = F()
+        elif kind == 'object_plain':
+            class G(object):
+                def __call__(self, x):
+                    log.append(False)
+                    return expr(x)
+            f = G()
+        return f
+
+    lines, batch = [], []
+    for kind in ('plain', 'optional', 'kwonly', 'required', 'object_required', 'object_plain'):
+        for out_given in (False, True):
+            log = []
+            case = dict(kind='dispatch', sig=kind, out=out_given)
+            try:
+                f = mk(kind, log)
+                has_out, optional = du._func_out_type(f)
+                sf = du.sampling_function(f, space.domain, out_dtype='float64')
+                if out_given:
+                    arr = np.full(space.shape, np.nan)
+                    du.point_collocation(sf, mesh, out=arr)
+                else:
+                    arr = du.point_collocation(sf, mesh)
+                toks = flat_tokens(arr, 'float64')
+                status = 'ok'
+            except Exception as e:  # noqa
+                status, toks, has_out, optional = 'err:{}:{}'.format(type(e).__name__, str(e)[:100]), None, None, None
+            ctx.case(('dispatch', kind, out_given), None)
+            ctx.hit('dispatch/{}/{}'.format(kind, 'out' if out_given else 'noout'))
+            key = 'sampling dispatch signature={} out_given={}'.format(kind, out_given)
+            if status != 'ok':
+                ctx.violation(key + ' raised', status, case)
+                continue
+            if toks != exp:
+                ctx.violation(key + ' values differ from the callable at the grid points',
+                              'expected {} got {}'.format(exp, toks), case)
+            # the signature class as written above (not as classified by the code)
+            sig_has, sig_opt = {'plain': (0, 0), 'object_plain': (0, 0), 'optional': (1, 1),
+                                'kwonly': (1, 1), 'required': (1, 0), 'object_required': (1, 0)}[kind]
+            lines.append('dispatch hasout={} optional={} out={}'.format(sig_has, sig_opt, int(out_given)))
+            batch.append((case, log, (int(bool(has_out)), int(bool(optional))), (sig_has, sig_opt)))
+    if not with_model or not lines:
+        return
+    outs = core.run_driver('C15', lines)
+    for (case, log, classified, written), ans in zip(batch, outs):
+        impl = 'user_out={}'.format(int(bool(log and log[-1]))) if len(log) == 1 else 'calls={}'.format(len(log))
+        if not ans.startswith('ok ') or ans.split()[-1] != impl:
+            ctx.disagree(case, impl, ans)
+        elif classified != written:
+            ctx.disagree(case, '_func_out_type -> (has_out, out_optional) = {}'.format(classified),
+                         'signature is {}'.format(written))
+
+
 def run_sampling(ctx):
     for case in samp_configs(ctx):
         run_sampling_case(ctx, case)
@@ -1326,13 +1428,15 @@ def run_sampling(ctx):
 MODEL_BRANCHES = ['axis/{}/{}'.format(s_, b) for s_ in 'ln' for b in ('lo', 'hi', 'node', 'tie', 'in<', 'in>')] + \
     ['conv/{}/{}'.format(a, c) for a in ('nearest', 'linear', 'peraxis') for c in ('point', 'array', 'mesh')] + \
     ['conv/resampling/mesh', 'conv/deform/array', 'mesh-input/rejected'] + \
-    ['dtype/' + vk for vk in sorted(set(v for _, v in VKINDS))]
+    ['dtype/' + vk for vk in sorted(set(v for _, v in VKINDS))] + \
+    ['dispatch/{}/{}'.format(k, o) for k in ('plain', 'optional', 'required') for o in ('out', 'noout')]
 
 
 def run(ctx):
     run_interp(ctx, interp_configs(ctx))
     run_ops(ctx, op_configs(ctx))
     run_dtype_table(ctx)
+    run_dispatch(ctx)
     run_sampling(ctx)
     unhit = [b for b in MODEL_BRANCHES if not ctx.branches.get(b)]
     ctx.extra['unhit_model_branches'] = unhit
@@ -1353,6 +1457,7 @@ def search(ctx, broken):
             affine_check(ctx, case)
         run_ops(ctx, op_configs(ctx), with_model=False)
         run_dtype_table(ctx, with_model=False)
+        run_dispatch(ctx, with_model=False)
         run_sampling(ctx)
     finally:
         ctx.tier = saved
@@ -1378,6 +1483,8 @@ def replay(ctx, case):
         run_dtype_table(ctx, with_model=False)
     elif kind == 'vector':
         run_vector_valued(ctx)
+    elif kind == 'dispatch':
+        run_dispatch(ctx, with_model=False)
     if len(ctx.violations) > before:
         v = ctx.violations[before]
         return '{} :: {}'.format(v['key'], v['what'])
